@@ -501,7 +501,18 @@ def r4_escape_sets(cx):
         conds = " ".join(t for t, p_ in guard_texts(b, stop=enclosing(b, ast.For)) if p_)
         if "startswith" in conds and "'{'" in conds and "'['" in conds:
             ok = True
-    cx.require(ok, exits[0] if exits else jf, "JSON: the scan for the start line stops at the first '{' / '[' line", construct="scan exit guarded by %s" % (sorted(guard_texts(exits[0], stop=enclosing(exits[0], ast.For))) if exits else None))
+    if not ok and not exits:
+        # first match written with next():  actual_start_index = next((idx for idx, line in enumerate(content) if line.strip().startswith(('{', '['))), 0)
+        for a_ in [x for x in walk_body(scan_fn.body) if isinstance(x, ast.Assign) and U(x.targets[0]) == "actual_start_index" and isinstance(x.value, ast.Call) and call_name(x.value) == "next"]:
+            c_ = a_.value
+            if len(c_.args) == 2 and isinstance(c_.args[0], ast.GeneratorExp) and len(c_.args[0].generators) == 1 and U(c_.args[1]) == "0":
+                g_ = c_.args[0].generators[0]
+                flt = " ".join(U(feat.resolve_const(m, scan_fn, n_)) if isinstance(n_, ast.Name) else "" for i_ in g_.ifs for n_ in ast.walk(i_)) + " " + " ".join(U(i_) for i_ in g_.ifs)
+                if isinstance(g_.iter, ast.Call) and call_name(g_.iter) == "enumerate" and isinstance(g_.target, ast.Tuple) and U(c_.args[0].elt) == U(g_.target.elts[0]) \
+                        and "startswith" in flt and "'{'" in flt and "'['" in flt:
+                    ok = True
+                    exits = [a_]
+    cx.require(ok, exits[0] if exits else jf, "JSON: the scan for the start line stops at the first '{' / '[' line", construct="scan exit guarded by %s" % (sorted(guard_texts(exits[0], stop=enclosing(exits[0], ast.For))) if exits and enclosing(exits[0], ast.For) is not None else short(exits[0], 80) if exits else None))
 
 
 def terminates_all(body):
